@@ -19,6 +19,7 @@ open GLua.Require
 @[simp] theorem setLoaded_heap (s : St) (n : Name) (v : LV) : (s.setLoaded n v).heap = s.heap := rfl
 @[simp] theorem setLoaded_preload (s : St) (n : Name) (v : LV) : (s.setLoaded n v).preload = s.preload := rfl
 @[simp] theorem setLoaded_files (s : St) (n : Name) (v : LV) : (s.setLoaded n v).files = s.files := rfl
+@[simp] theorem setLoaded_broken (s : St) (n : Name) (v : LV) : (s.setLoaded n v).broken = s.broken := rfl
 @[simp] theorem setLoaded_path (s : St) (n : Name) (v : LV) : (s.setLoaded n v).path = s.path := rfl
 @[simp] theorem setLoaded_serial (s : St) (n : Name) (v : LV) : (s.setLoaded n v).serial = s.serial := rfl
 @[simp] theorem logEv_loaded (s : St) (e : Ev) : (s.logEv e).loaded = s.loaded := rfl
@@ -82,26 +83,54 @@ theorem loFindFileLoop_eq (s : St) (name : String) (pats : List String) : ∀ ms
 
 theorem loLoaders_eq : Model.loLoaders = [.preload, .lua] := by decide
 
-theorem loaderLoop_eq (s : St) (n : Name) :
-    Model.loaderLoop s n Model.loLoaders [] =
-      (match Spec.findLoader s n with
-       | .inl ld => .inl ld
-       | .inr tried => .inr (.notFound n tried)) := by
-  rw [loLoaders_eq]
-  simp only [Model.loaderLoop, Model.callSearcher, Model.loLoaderPreload, Model.loLoaderLua, Model.loFindFile,
-    Spec.findLoader, Spec.candidates]
-  cases hp : s.preload n with
-  | some ld => simp
-  | none =>
-    simp only [loFindFileLoop_eq]
+/-- each searcher, as gopher-lua runs it, answers what the reference says it answers. -/
+theorem callSearcher_eq (s : St) (n : Name) (l : Searcher) : Model.callSearcher s n l = Spec.search s n l := by
+  cases l with
+  | preload =>
+    simp only [Model.callSearcher, Spec.search, Model.loLoaderPreload]
+    cases s.preload n <;> rfl
+  | lua =>
+    simp only [Model.callSearcher, Spec.search, Model.loLoaderLua, Model.loFindFile, Spec.candidates, loFindFileLoop_eq]
     cases hf : ((s.str.splitPath s.path).map (fun t => s.str.subst t (s.str.replaceDots n))).find?
         (fun p => (s.files p).isSome) with
     | none => simp
+    | some p => by_cases hb : s.broken p = true <;> cases hfp : s.files p <;> simp [hb, hfp]
+  | unknown => rfl
+  | finder who b => rfl
+  | says tag => rfl
+  | silent => rfl
+
+/-- the searcher loop of loRequire = ll_require's loop, over any chain. -/
+theorem loaderLoopL_eq (s : St) (n : Name) : ∀ (chain : List Searcher) (msgs : List String),
+    Model.loaderLoop s n chain msgs = Spec.findLoaderIn s n chain msgs := by
+  intro chain
+  induction chain with
+  | nil => intro msgs; rfl
+  | cons l r ih =>
+    intro msgs
+    simp only [Model.loaderLoop, Spec.findLoaderIn, callSearcher_eq]
+    cases Spec.search s n l <;> simp [ih]
+
+/-- over the chain the library installs, the loop is the manual's "preload first, then the path". -/
+theorem findLoaderIn_std (s : St) (n : Name) : Spec.findLoaderIn s n Spec.stdLoaders [] = Spec.findLoader s n := by
+  simp only [Spec.stdLoaders, Spec.findLoaderIn, Spec.search, Spec.findLoader]
+  cases hp : s.preload n with
+  | some ld => simp
+  | none =>
+    simp only []
+    cases hf : (Spec.candidates s n).find? (fun p => (s.files p).isSome) with
+    | none => simp
     | some p =>
       have hs := List.find?_some hf
-      cases hfp : s.files p with
-      | none => simp [hfp] at hs
-      | some b => simp [hfp]
+      by_cases hb : s.broken p = true
+      · simp [hb]
+      · cases hfp : s.files p with
+        | none => simp [hfp] at hs
+        | some b => simp [hb, hfp]
+
+theorem loaderLoop_eq (s : St) (n : Name) :
+    Model.loaderLoop s n Model.loLoaders [] = Spec.findLoader s n := by
+  rw [loLoaders_eq, loaderLoopL_eq]; exact findLoaderIn_std s n
 
 theorem runFinal_ne_sentinel (modf : St → Name → St × Res) (s : St) (self : Name) (fin : Final)
     (s' : St) (v : LV) (h : runFinal modf s self fin = (s', .ok v)) : v ≠ .sentinel := by
@@ -121,27 +150,33 @@ theorem runLoader_ne_sentinel (lib : Lib) (s : St) (ld : Loader) (arg : Name) (s
   | some e => simp [hs] at h
   | none => simp only [hs] at h; exact runFinal_ne_sentinel _ _ _ _ _ _ h
 
-theorem loRequire_eq : ∀ (f : Nat) (s : St) (n : Name), Model.loRequire f s n = Spec.require .assigned f s n
+theorem loRequireL_eq (chain : List Searcher) : ∀ (f : Nat) (s : St) (n : Name),
+    Model.loRequireL chain f s n = Spec.requireL .assigned chain f s n
   | 0, s, n => rfl
   | f + 1, s, n => by
-    have ih : Model.loRequire f = Spec.require .assigned f :=
-      funext fun s => funext fun n => loRequire_eq f s n
+    have ih : Model.loRequireL chain f = Spec.requireL .assigned chain f :=
+      funext fun s => funext fun n => loRequireL_eq chain f s n
     have hm : Model.loModule = Spec.module := funext fun s => funext fun n => loModule_eq s n
-    simp only [Model.loRequire, Spec.require]
+    simp only [Model.loRequireL, Spec.requireL]
     split
     · rfl
-    · rw [loaderLoop_eq]
-      cases Spec.findLoader s n with
-      | inr tried => rfl
+    · rw [loaderLoopL_eq]
+      cases Spec.findLoaderIn s n chain [] with
+      | inr e => rfl
       | inl ld =>
         simp only [ih, hm]
-        rcases hr : runLoader { require := Spec.require .assigned f, module := Spec.module }
+        rcases hr : runLoader { require := Spec.requireL .assigned chain f, module := Spec.module }
             (s.setLoaded n .sentinel) ld n with ⟨s2, r⟩
         cases r with
         | err e => rfl
         | ok ret =>
           have hns := runLoader_ne_sentinel _ _ _ _ _ _ hr
           by_cases h1 : ret = .nil <;> by_cases h2 : s2.loaded n = .sentinel <;> simp [h1, h2, hns]
+
+/-- the regenerated chain is the standard chain: loRequire in a fresh state = the manual's require. -/
+theorem loRequire_eq (f : Nat) (s : St) (n : Name) : Model.loRequire f s n = Spec.require .assigned f s n := by
+  unfold Model.loRequire Spec.require
+  rw [loLoaders_eq]; exact loRequireL_eq _ f s n
 
 end Refine
 
@@ -262,26 +297,27 @@ theorem runLoader_frame {m v} {req : St → Name → St × Res} (hreq : Frame m 
   | some e => exact h0.trans h1
   | none => exact (h0.trans h1).trans (runFinal_frame h1.1 arg hne ld.beh.final)
 
-/-- **frame of require** (both Tie choices, every fuel): requiring anything — including everything the
-    loaders nest — leaves a cached module cached with the identical value and runs no loader of it. -/
-theorem require_frame (tie : Spec.Tie) (m : Name) (v : LV) : ∀ f, Frame m v (Spec.require tie f)
+/-- **frame of require** (both Tie choices, every chain of searchers, every fuel): requiring anything — including
+    everything the loaders nest — leaves a cached module cached with the identical value and runs no loader of it. -/
+theorem requireL_frame (tie : Spec.Tie) (chain : List Searcher) (m : Name) (v : LV) :
+    ∀ f, Frame m v (Spec.requireL tie chain f)
   | 0 => fun s n hc => Kept.refl hc
   | f + 1 => by
     intro s n hc
-    have ih := require_frame tie m v f
-    simp only [Spec.require]
+    have ih := requireL_frame tie chain m v f
+    simp only [Spec.requireL]
     split
     · split <;> exact Kept.refl hc
     · rename_i hfalse
       have hne : n ≠ m := by
         intro h; subst h; rw [hc.1, hc.2] at hfalse; exact hfalse rfl
-      cases Spec.findLoader s n with
-      | inr tried => exact Kept.refl hc
+      cases Spec.findLoaderIn s n chain [] with
+      | inr e => exact Kept.refl hc
       | inl ld =>
         simp only []
         have h0 := kept_setLoaded hc n .sentinel hne
         have h1 := runLoader_frame ih h0.1 ld n hne
-        rcases hr : runLoader { require := Spec.require tie f, module := Spec.module }
+        rcases hr : runLoader { require := Spec.requireL tie chain f, module := Spec.module }
             (s.setLoaded n .sentinel) ld n with ⟨s2, r⟩
         rw [hr] at h1
         have h01 := h0.trans h1
@@ -299,15 +335,26 @@ theorem require_frame (tie : Spec.Tie) (m : Name) (v : LV) : ∀ f, Frame m v (S
           have ha := hk s2 (ret ≠ .nil ∧ (tie = .returned ∨ s2.loaded n = .sentinel)) ret h1.1
           exact ha.trans (hk _ _ (.bool true) ha.1)
 
+theorem require_frame (tie : Spec.Tie) (m : Name) (v : LV) : ∀ f, Frame m v (Spec.require tie f) :=
+  requireL_frame tie Spec.stdLoaders m v
+
 /-- a cache hit: the identical value, no state change (hence no loader run). -/
+theorem requireL_hit (tie : Spec.Tie) (chain : List Searcher) (f : Nat) (s : St) (n : Name) (v : LV) (hc : Cached s n v)
+    (hns : v ≠ .sentinel) : Spec.requireL tie chain (f + 1) s n = (s, .ok v) := by
+  simp [Spec.requireL, hc.1, hc.2, hns]
+
 theorem require_hit (tie : Spec.Tie) (f : Nat) (s : St) (n : Name) (v : LV) (hc : Cached s n v)
-    (hns : v ≠ .sentinel) : Spec.require tie (f + 1) s n = (s, .ok v) := by
-  simp [Spec.require, hc.1, hc.2, hns]
+    (hns : v ≠ .sentinel) : Spec.require tie (f + 1) s n = (s, .ok v) :=
+  requireL_hit tie Spec.stdLoaders f s n v hc hns
 
 /-- the sentinel is visible: a loop (or a previous error) is reported, nothing else happens. -/
+theorem requireL_sentinel (tie : Spec.Tie) (chain : List Searcher) (f : Nat) (s : St) (n : Name)
+    (h : s.loaded n = .sentinel) : Spec.requireL tie chain (f + 1) s n = (s, .err (.loop n)) := by
+  simp [Spec.requireL, h, LV.truthy]
+
 theorem require_sentinel (tie : Spec.Tie) (f : Nat) (s : St) (n : Name) (h : s.loaded n = .sentinel) :
-    Spec.require tie (f + 1) s n = (s, .err (.loop n)) := by
-  simp [Spec.require, h, LV.truthy]
+    Spec.require tie (f + 1) s n = (s, .err (.loop n)) :=
+  requireL_sentinel tie Spec.stdLoaders f s n h
 
 theorem final_ne_sentinel (s3 : St) (n : Name) :
     (if s3.loaded n = .sentinel then s3.setLoaded n (.bool true) else s3).loaded n ≠ .sentinel := by
@@ -316,21 +363,21 @@ theorem final_ne_sentinel (s3 : St) (n : Name) :
   · assumption
 
 /-- whatever `require` returns is the final package.loaded[n], and never the sentinel. -/
-theorem require_result (tie : Spec.Tie) (f : Nat) (s s' : St) (n : Name) (v : LV)
-    (h : Spec.require tie f s n = (s', .ok v)) : s'.loaded n = v ∧ v ≠ .sentinel := by
+theorem requireL_result (tie : Spec.Tie) (chain : List Searcher) (f : Nat) (s s' : St) (n : Name) (v : LV)
+    (h : Spec.requireL tie chain f s n = (s', .ok v)) : s'.loaded n = v ∧ v ≠ .sentinel := by
   cases f with
-  | zero => simp [Spec.require] at h
+  | zero => simp [Spec.requireL] at h
   | succ f =>
-    simp only [Spec.require] at h
+    simp only [Spec.requireL] at h
     split at h
     · split at h
       · simp at h
       · rename_i hns; simp only [Prod.mk.injEq, Res.ok.injEq] at h; obtain ⟨rfl, rfl⟩ := h; exact ⟨rfl, hns⟩
-    · cases hl : Spec.findLoader s n with
-      | inr tried => simp [hl] at h
+    · cases hl : Spec.findLoaderIn s n chain [] with
+      | inr e => simp [hl] at h
       | inl ld =>
         simp only [hl] at h
-        rcases hr : runLoader { require := Spec.require tie f, module := Spec.module }
+        rcases hr : runLoader { require := Spec.requireL tie chain f, module := Spec.module }
             (s.setLoaded n .sentinel) ld n with ⟨s2, r⟩
         rw [hr] at h
         cases r with
@@ -341,12 +388,24 @@ theorem require_result (tie : Spec.Tie) (f : Nat) (s s' : St) (n : Name) (v : LV
           refine ⟨rfl, ?_⟩
           exact final_ne_sentinel _ n
 
+theorem require_result (tie : Spec.Tie) (f : Nat) (s s' : St) (n : Name) (v : LV)
+    (h : Spec.require tie f s n = (s', .ok v)) : s'.loaded n = v ∧ v ≠ .sentinel :=
+  requireL_result tie Spec.stdLoaders f s s' n v h
+
+/-- a failed search — nothing found, or the file found does not load — changes nothing: no sentinel, no other
+    entry of package.loaded, no log entry (so a later require, after the cause was repaired, starts afresh). -/
+theorem requireL_search_failed (tie : Spec.Tie) (chain : List Searcher) (f : Nat) (s : St) (n : Name) (e : RErr)
+    (hun : (s.loaded n).truthy = false) (hl : Spec.findLoaderIn s n chain [] = .inr e) :
+    Spec.requireL tie chain (f + 1) s n = (s, .err e) := by
+  simp [Spec.requireL, hun, hl]
+
 /-- a cached module whose loader did nothing but `return` nothing holds `true`. -/
 theorem require_true_when_nothing (tie : Spec.Tie) (f : Nat) (s : St) (n : Name) (ld : Loader)
     (hun : (s.loaded n).truthy = false) (hl : Spec.findLoader s n = .inl ld)
     (hb : ld.beh = { steps := [], final := .none }) :
     ∃ s', Spec.require tie (f + 1) s n = (s', .ok (.bool true)) ∧ s'.loaded n = .bool true := by
-  simp [Spec.require, hun, hl, runLoader, hb, runSteps, runFinal]
+  rw [← Refine.findLoaderIn_std] at hl
+  simp [Spec.require, Spec.requireL, hun, hl, runLoader, hb, runSteps, runFinal]
 
 theorem foldl_heapSet_loaded_log (fs : List String) (id : Nat) : ∀ (s : St),
     (fs.foldl (fun s f => s.heapSet id f .fn) s).log = s.log ∧
@@ -398,7 +457,9 @@ theorem history_cached {m : Name} {v : LV} {req : St → Name → St × Res} {re
     have hstep : Kept m v s (stepWith req reg s o).1 ∧ (o = .require m → (stepWith req reg s o).2 = some (.ok v)) := by
       cases o with
       | file p b => exact ⟨kept_of_eq hc rfl rfl, by simp⟩
+      | badfile p => exact ⟨kept_of_eq hc rfl rfl, by simp⟩
       | rmfile p => exact ⟨kept_of_eq hc rfl rfl, by simp⟩
+      | newPreload keep => exact ⟨kept_of_eq hc rfl rfl, by simp⟩
       | preload n b => exact ⟨kept_of_eq hc rfl rfl, by simp⟩
       | gpreload n b => exact ⟨kept_of_eq hc rfl rfl, by simp⟩
       | unpreload n => exact ⟨kept_of_eq hc rfl rfl, by simp⟩
